@@ -6,7 +6,7 @@ CONSTANTS
   MaxDepth = 4
   Alphabet <- AlphaCore
   MaxToks = 5
-  Big = FALSE
+  USize = 1
 SPECIFICATION SpecTexts
 INVARIANT PDAEqualsRD
 INVARIANT UnbalancedRejected
